@@ -29,7 +29,7 @@ WALL_BUDGET = {"quick": 1500, "thorough": 4 * 3600}
 
 
 def cases(seed, tier):
-    n = 40 if tier == "quick" else 900
+    n = 40 if tier == "quick" else 600
     out = []
     for k in range(n):
         rng = trees.rng_for(seed, PID, k)
